@@ -627,8 +627,8 @@ def fidelity_probe():
 
 
 def evidence(tier, results, counters):
-    days = 0
     return {
-        "distinct_interleavings": None,  # = distinct_nontrivial (see rule)
-        "simulated_time": "each batch covers up to 6 simulated calendar days spread over -30..+365 day jumps; the clock is read once per run (header)",
+        "distinct_interleavings_measure": "distinct_nontrivial = number of distinct SHA-256 hashes of the IPC event sequence over all multi-core runs of this check",
+        "simulated_time": "each batch covers up to 7 simulated calendar days spread over -30..+365 day jumps; the clock is read once per program run (header); "
+                          "%d clock jumps fired" % counters.get("clock_jump", 0),
     }
